@@ -1,5 +1,469 @@
-"""Placeholder until the variant tables are filled in."""
+"""Variant self-test for the thorough tier.
+
+Each variant is an in-memory text edit (old -> new, exactly one occurrence)
+of one file of the *current* tree; nothing is written to disk and nothing is
+executed - the variant is parsed (hence must compile) and the property's
+rules are run on it.
+
+* kind "break": a realistic property-breaking edit.  The property's check
+  must report at least one *new* failure whose rule id starts with `expect`.
+  A break that is not reported means the rule is dead: ANALYSIS-ERROR.
+* kind "benign": a behaviour-preserving refactoring.  The check must report
+  no new failure and must not become undecided.  A report is a false alarm
+  of the checker: ANALYSIS-ERROR as well.
+
+Variants whose `old` text no longer occurs exactly once are skipped and
+counted (the tree moved on); they never fail the run.
+"""
+from __future__ import annotations
+
+import concurrent.futures as cf
+import os
+
+from . import report
+from .loader import AnchorError, Repo, Undecided
+
+FIT = "src/nanite/fit.py"
+IND = "src/nanite/indent.py"
+PRE = "src/nanite/preproc.py"
+POC = "src/nanite/poc.py"
+RES = "src/nanite/model/residuals.py"
+FEA = "src/nanite/rate/features.py"
+RAT = "src/nanite/rate/rater.py"
+RIO = "src/nanite/rate/io.py"
+PRO = "src/nanite/cli/profile.py"
+CRA = "src/nanite/cli/rating.py"
+QMA = "src/nanite/qmap.py"
+REA = "src/nanite/read.py"
+GRP = "src/nanite/group.py"
+LOG = "src/nanite/model/logic.py"
+COR = "src/nanite/model/core.py"
+SMO = "src/nanite/smooth.py"
+REG = "src/nanite/rate/regressors.py"
+M_PARA = "src/nanite/model/model_hertz_paraboloidal.py"
+M_CONE = "src/nanite/model/model_conical_indenter.py"
+M_PYR = "src/nanite/model/model_hertz_three_sided_pyramid.py"
+M_SPH = "src/nanite/model/model_sneddon_spherical_approximation.py"
+M_CLI = "src/nanite/model/model_power_layer_clifford_2009.py"
+
+B, N = "break", "benign"
+
+V = [
+    # ---- C01
+    ("C01", B, "drop method", FIT, "method=self.fp[\"method\"],", "", "C01-R3"),
+    ("C01", B, "ordinate uses segment mask", FIT,
+     "y = self.y_axis[self.fit_range]", "y = self.y_axis[segid]", "C01-R3"),
+    ("C01", B, "kwargs unsorted", IND, "for arg in sorted(kwargs.keys()):",
+     "for arg in kwargs.keys():", "C01-R1"),
+    ("C01", B, "model key after kwargs", IND,
+     """        if "model_key" not in self.fit_properties:
+            self.fit_properties["model_key"] = FP_DEFAULT["model_key"]
+
+        # (sorted, such that `model_key` is set before `params_initial`)
+        for arg in sorted(kwargs.keys()):
+            self.fit_properties[arg] = kwargs[arg]
+""",
+     """        # (sorted, such that `model_key` is set before `params_initial`)
+        for arg in sorted(kwargs.keys()):
+            self.fit_properties[arg] = kwargs[arg]
+        if "model_key" not in self.fit_properties:
+            self.fit_properties["model_key"] = FP_DEFAULT["model_key"]
+""", "C01-R1"),
+    ("C01", B, "contact point guess from height", FIT,
+     'cp = idnt["tip position"][cpid]', 'cp = idnt["height (measured)"][cpid]',
+     "C01-R1"),
+    ("C01", N, "rename locals in _fit", FIT, "        md = model.models_available[model_key]\n",
+     "        md = model.models_available[self.fp[\"model_key\"]]\n", ""),
+    ("C01", N, "commuted scale factor", FIT,
+     'x = self.x_axis[self.fit_range] * self.fp["gcf_k"]',
+     'x = self.fp["gcf_k"] * self.x_axis[self.fit_range]', ""),
+    # ---- C02
+    ("C02", B, "series coefficient 1/840 -> 1/480", M_SPH,
+     "- 1/840*(root[pos]/R)**2", "- 1/480*(root[pos]/R)**2", "C02-R"),
+    ("C02", B, "exponent 3/2 -> 2", M_PARA, "bb[pos] = (root[pos])**(3/2)",
+     "bb[pos] = (root[pos])**(2)", "C02-R1"),
+    ("C02", B, "depth sign", M_CONE, "root = contact_point-delta",
+     "root = delta-contact_point", "C02-R2"),
+    ("C02", B, "baseline dropped", M_PYR, "return aa*bb + baseline",
+     "return aa*bb", "C02-R"),
+    ("C02", B, "ones_like", M_PARA, "bb = np.zeros_like(delta)",
+     "bb = np.ones_like(delta)", "C02-R2"),
+    ("C02", B, "degrees not converted", M_CONE, "np.tan(alpha*pi/180)",
+     "np.tan(alpha)", "C02-R1"),
+    ("C02", B, "Clifford constant", M_CLI, "B_L = 1.92", "B_L = 1.29",
+     "C02-R1"),
+    ("C02", N, "reordered factors", M_PARA,
+     "aa = 4/3 * E/(1-nu**2)*np.sqrt(R)", "aa = np.sqrt(R) * E * 4 / (3 * (1 - nu**2))", ""),
+    ("C02", N, "power 1.5", M_PARA, "bb[pos] = (root[pos])**(3/2)",
+     "bb[pos] = root[pos]**1.5", ""),
+    ("C02", N, "mask >=", M_CONE, "pos = root > 0", "pos = root >= 0", ""),
+    ("C02", N, "precomputed ratio", M_SPH,
+     """    bb[pos] = (root[pos])**(3/2)*(
+        + 1
+        - 1/10*(root[pos]/R)
+        - 1/840*(root[pos]/R)**2
+        + 11/15120*(root[pos]/R)**3
+        + 1357/6652800*(root[pos]/R)**4)""",
+     """    u = root[pos]/R
+    bb[pos] = (root[pos])**(3/2)*(
+        1 + u*(-1/10 + u*(-1/840 + u*(11/15120 + u*1357/6652800))))""", ""),
+    # ---- C03
+    ("C03", B, "drop reset after don't-care", FIT,
+     "                # Trigger `self.reset`\n                self.reset()\n",
+     "                # Trigger `self.reset`\n                pass\n", "C03-R1"),
+    ("C03", B, "fit() writes a setting", FIT,
+     "            self.range_x = [dopt, np.max(self.fp[\"range_x\"])]\n",
+     "            self.range_x = [dopt, np.max(self.fp[\"range_x\"])]\n"
+     "            self.fp[\"range_x\"] = self.range_x\n", "C03-R"),
+    ("C03", B, "bypass update in fit_model", IND,
+     "        for arg in sorted(kwargs.keys()):\n            self.fit_properties[arg] = kwargs[arg]\n",
+     "        for arg in sorted(kwargs.keys()):\n            self.fit_properties[arg] = kwargs[arg]\n"
+     "        self._fit_properties.update(kwargs)\n", "C03-R3"),
+    ("C03", B, "drop rating reset", IND,
+     "            # Reset rating\n            self._rating = None\n",
+     "            # Reset rating\n", "C03-R5"),
+    ("C03", B, "range not restored", FIT,
+     "        self.range_type = range_type\n        self.range_x = range_x\n",
+     "        self.range_type = range_type\n", "C03-R6"),
+    ("C03", B, "fit without hash test", IND,
+     '        if "hash" in self.fit_properties:', '        if False:', "C03-R4"),
+    ("C03", N, "swap hash branches", IND,
+     """        if "hash" in self.fit_properties:
+            # There is nothing to do, because the initial fit
+            # properties are the same.
+            pass
+        else:
+            fitter = IndentationFitter(self)
+            # Perform fitting
+            # Note: if `fitter.fp["success"]` is `False`, then
+            # the `fit_residuals` and `fit_curve` are `nan`.
+            fitter.fit()
+            self["fit"] = fitter.fit_curve
+            self["fit residuals"] = fitter.fit_residuals
+            self["fit range"] = fitter.fit_range
+            self.fit_properties = fitter.fp
+""",
+     """        if "hash" not in self.fit_properties:
+            fitter = IndentationFitter(self)
+            fitter.fit()
+            self["fit"] = fitter.fit_curve
+            self["fit residuals"] = fitter.fit_residuals
+            self["fit range"] = fitter.fit_range
+            self.fit_properties = fitter.fp
+""", ""),
+    ("C03", N, "sorted list beforehand", IND,
+     "        for arg in sorted(kwargs.keys()):\n            self.fit_properties[arg] = kwargs[arg]\n",
+     "        for arg in sorted(kwargs):\n            self.fit_properties[arg] = kwargs[arg]\n", ""),
+    # ---- C04
+    ("C04", B, "residual sign", RES, "    resid = force - md\n",
+     "    resid = md - force\n", "C04-R3"),
+    ("C04", B, "weights from force", RES, "            delta=delta,\n            weight_dist=weight_cp)",
+     "            delta=force,\n            weight_dist=weight_cp)", "C04-R3"),
+    ("C04", B, "success True in else", FIT,
+     '            self.fp["success"] = False\n\n    def fit(self):',
+     '            self.fp["success"] = True\n\n    def fit(self):', "C04-R1"),
+    ("C04", B, "fit column on fit range only", FIT,
+     "            fit_cur[segid] = md.model(fit.params, xseg)",
+     "            fit_cur[self.fit_range] = md.model(fit.params, x)", "C04-R"),
+    ("C04", B, "swapped columns", IND,
+     '            self["fit"] = fitter.fit_curve\n            self["fit residuals"] = fitter.fit_residuals\n',
+     '            self["fit"] = fitter.fit_residuals\n            self["fit residuals"] = fitter.fit_curve\n',
+     "C04-R2b"),
+    ("C04", N, "clip idiom", RES, "    x[x > 1] = 1\n", "    x[x >= 1] = 1\n", ""),
+    # ---- C05
+    ("C05", B, "open lower bound", FIT, "range_bool[x_data < rmin] = False",
+     "range_bool[x_data <= rmin] = False", "C05-R1"),
+    ("C05", B, "anchoring sign", FIT, "list(np.array(range_x)+cp)",
+     "list(np.array(range_x)-cp)", "C05-R3"),
+    ("C05", B, "mask not from segment", FIT,
+     "range_bool = self.segment.copy()", "range_bool = np.ones_like(self.segment)", "C05-R1"),
+    ("C05", B, "one more sample", FIT,
+     "np.linspace(xmin, xmin*.05, num_samp)", "np.linspace(xmin, xmin*.05, num_samp + 1)", "C05-R4"),
+    ("C05", B, "xmax not converted", FIT, '"xmax": x.max() / self.fp["gcf_k"],',
+     '"xmax": x.max(),', "C05-R2b"),
+    ("C05", N, "and-form mask", FIT,
+     "                range_bool[x_data < rmin] = False\n                range_bool[x_data > rmax] = False\n",
+     "                range_bool &= (x_data >= rmin) & (x_data <= rmax)\n", ""),
+    # ---- C06
+    ("C06", B, "reset only when steps", PRE, "    apret.reset_data()\n",
+     "    if identifiers:\n        apret.reset_data()\n", "C06-R1"),
+    ("C06", B, "memo kept on failure", IND,
+     '            fp.pop("preprocessing", None)\n            fp.pop("preprocessing_options", None)\n', "",
+     "C06-R3"),
+    ("C06", B, "options not compared", IND,
+     "        if ((preproc_past != [preprocessing, options])",
+     "        if ((preproc_past[:1] != [preprocessing])", "C06-R6"),
+    ("C06", B, "step reads history", PRE,
+     '    idp = poc.compute_poc(force=apret["force"],\n                          method="deviation_from_baseline")\n    if idp:',
+     '    idp = poc.compute_poc(force=apret["force"],\n                          method=apret.fit_properties.get("poc", "deviation_from_baseline"))\n    if idp:',
+     "C06-R5"),
+    ("C06", B, "shallow copy of options", IND,
+     "        self.preprocessing_options = copy.deepcopy(options)",
+     "        self.preprocessing_options = copy.copy(options)", "C06-R4"),
+    ("C06", N, "list() instead of copy.copy", IND,
+     "        self.preprocessing = copy.copy(preprocessing)",
+     "        self.preprocessing = list(preprocessing)", ""),
+    # ---- C07
+    ("C07", B, "tip offset writes force", PRE,
+     '    apret["tip position"] = (apret["tip position"]\n                             - apret["tip position"][cpid])',
+     '    apret["force"] = (apret["tip position"]\n                             - apret["tip position"][cpid])',
+     "C07-R"),
+    ("C07", B, "no anchoring", PRE,
+     "        force_edit[:idp] -= out.best_fit - out.best_fit[-1]",
+     "        force_edit[:idp] -= out.best_fit", "C07-R2"),
+    ("C07", B, "two switches", PRE, "        segment[idturn:] = 1\n",
+     "        segment[idturn:] = 1\n        segment[:idp] = 1\n", "C07-R2"),
+    ("C07", B, "k multiplied", PRE, "zcant + force / k", "zcant + force * k", "C07-R2"),
+    ("C07", N, "np.mean", PRE, 'np.average(apret["force"][:idp])',
+     'np.mean(apret["force"][:idp])', ""),
+    # ---- C08
+    ("C08", B, "no normalisation", POC,
+     "        y = (force - fmin) / fptp\n        x = np.arange(y.size)\n        # get estimate for cp",
+     "        y = force - fmin\n        x = np.arange(y.size)\n        # get estimate for cp", "C08-R1"),
+    ("C08", B, "absolute threshold", POC, "thresh = 0.01 * np.max(gradn)",
+     "thresh = 1e-12", "C08-R1"),
+    ("C08", B, "fallback removed", POC,
+     "    if np.isnan(cp):\n        cp = force.size // 2\n", "", "C08-R2"),
+    ("C08", B, "frechet guard removed", POC, "    if force.size < 2:",
+     "    if False:", "C08-R3"),
+    ("C08", N, "method form of max", POC,
+     "bl_rng = np.max(np.abs(baseline - bl_avg)) * 2",
+     "bl_rng = 2 * np.abs(baseline - bl_avg).max()", ""),
+    # ---- C09
+    ("C09", B, "lda not compared", IND, "              self._rating[4] != lda):",
+     "              False):", "C09-R2"),
+    ("C09", B, "unseeded extra trees", REG,
+     '         "n_estimators": 100,\n         "random_state": 42,\n         }\n    ],\n    "Gradient',
+     '         "n_estimators": 100,\n         }\n    ],\n    "Gradient', "C09-R4"),
+    ("C09", B, "arithmetic on rating", IND, "rt = rater.rate(datasets=self)[0]",
+     "rt = rater.rate(datasets=self)[0] * 1", "C09-R3"),
+    ("C09", B, "unguarded success", FEA,
+     'return self.dataset.fit_properties.get("success", False)',
+     'return self.dataset.fit_properties["success"]', "C09-R1"),
+    ("C09", N, "in-test instead of get", FEA,
+     'return self.dataset.fit_properties.get("success", False)',
+     'return ("success" in self.dataset.fit_properties\n'
+     '                    and self.dataset.fit_properties["success"])', ""),
+    # ---- C10
+    ("C10", B, "weights in place", RES, "    x = np.abs(delta-cp)\n",
+     "    x = delta\n    x -= cp\n", "C10-R1"),
+    ("C10", B, "autosort mutates argument", PRE,
+     "    sorted_identifiers = copy.copy(identifiers)",
+     "    sorted_identifiers = identifiers", "C10-R1"),
+    ("C10", B, "settings by reference", FIT,
+     "            value = copy.deepcopy(value)\n", "            pass\n", "C10-R2"),
+    ("C10", B, "hand out stored params", IND,
+     'parms = copy.deepcopy(self.fit_properties["params_initial"])',
+     'parms = self.fit_properties["params_initial"]', "C10-R3"),
+    ("C10", B, "scale stored guess", FIT,
+     'params_initial = copy.deepcopy(self.fp["params_initial"])',
+     'params_initial = self.fp["params_initial"]', "C10-R4"),
+    ("C10", N, "list copy", PRE, "    sorted_identifiers = copy.copy(identifiers)",
+     "    sorted_identifiers = list(identifiers)", ""),
+    # ---- C11
+    ("C11", B, "cp not converted back", FIT,
+     '            fit.params["contact_point"].set(value=cpf / self.fp["gcf_k"])\n', "", "C11-R1"),
+    ("C11", B, "segment abscissa unscaled", FIT,
+     'xseg = self.x_axis[segid] * self.fp["gcf_k"]', "xseg = self.x_axis[segid]", "C11-R1"),
+    ("C11", B, "cp divided", FIT, 'set(value=cpi * self.fp["gcf_k"])',
+     'set(value=cpi / self.fp["gcf_k"])', "C11-R1"),
+    ("C11", N, "named factor", FIT,
+     '        xseg = self.x_axis[segid] * self.fp["gcf_k"]',
+     '        xseg = self.fp["gcf_k"] * self.x_axis[segid]', ""),
+    # ---- C12
+    ("C12", B, "gcf_k not hashed", FIT,
+     "            else:\n                hashlist.append(self.fp[key])",
+     "            elif key != \"gcf_k\":\n                hashlist.append(self.fp[key])", "C12-R1"),
+    ("C12", B, "y axis not hashed", FIT, "        hashlist.append(self.y_axis)\n", "", "C12-R1"),
+    ("C12", B, "dict unsorted", FIT, "return obj2bytes(sorted(obj.items()))",
+     "return obj2bytes(list(obj.items()))", "C12-R2"),
+    ("C12", B, "repr fallback", FIT,
+     '        raise ValueError("No rule to convert object \'{}\' to string.".\n                         format(obj.__class__))',
+     "        return repr(obj).encode()", "C12-R"),
+    ("C12", B, "no length prefix", FIT,
+     'return b"".join(str(len(it)).encode("utf-8") + b":" + it\n                        for it in items)',
+     'return b"".join(items)', "C12-R4"),
+    ("C12", N, "sorted keys", FIT, "        for key in FP_DEFAULT:\n            if (key == \"range_x\"",
+     "        for key in sorted(FP_DEFAULT):\n            if (key == \"range_x\"", ""),
+    # ---- C13
+    ("C13", B, "output not reversed", RES,
+     "    if revert:\n        return mf[::-1]\n    else:\n        return mf",
+     "    return mf", "C13-R1"),
+    ("C13", B, "default residual overwritten", COR,
+     '        if not hasattr(self.module, "residual"):', "        if True:", "C13-R2"),
+    ("C13", B, "cone mutates delta", M_CONE, "    root = contact_point-delta\n",
+     "    delta -= contact_point\n    root = -delta\n", "C13-R3"),
+    ("C13", N, "np.flip", RES, "        delta = delta[::-1]\n", "        delta = np.flip(delta)\n", ""),
+    # ---- C14
+    ("C14", B, "no post check", PRE,
+     "    # Perform a sanity check\n    check_order(sorted_identifiers)\n", "", "C14-R3"),
+    ("C14", B, "insert without remove", PRE,
+     "                sorted_identifiers.remove(step)\n", "", "C14-R2"),
+    ("C14", B, "unknown optional", PRE,
+     'steps_optional=["correct_force_slope"]\n                    )\ndef preproc_correct_force_offset',
+     'steps_optional=["correct_slope"]\n                    )\ndef preproc_correct_force_offset', "C14-R1"),
+    ("C14", B, "prefix includes current", PRE, "            act = identifiers[:ii]",
+     "            act = identifiers", "C14-R4"),
+    ("C14", N, "subset operator", PRE,
+     "            if req is not None and ((set(req) & set(act)) != set(req)):",
+     "            if req is not None and not set(req) <= set(act):", ""),
+    # ---- C15
+    ("C15", B, "response not filtered", RAT,
+     "            # remove corresponding responses\n            response = response[valid]\n", "", "C15-R1"),
+    ("C15", B, "impute all nan rows", RAT,
+     "                coloc = np.logical_and(resp0, fnans)", "                coloc = fnans", "C15-R2"),
+    ("C15", B, "neg inf positive", RAT, "samples[neginf, ii] = -2 * extreme",
+     "samples[neginf, ii] = 2 * extreme", "C15-R2"),
+    ("C15", B, "export other format", RIO,
+     'np.savetxt(upath, user.flatten(), fmt="%.2e")', 'np.savetxt(upath, user.flatten(), fmt="%.1f")', "C15-R4"),
+    ("C15", B, "weights not normalised", RAT, "        weight /= np.sum(weight)\n", "", "C15-R5"),
+    ("C15", N, "any-form mask", RAT,
+     "valid = ~np.array(np.sum(np.isnan(samples), axis=1), dtype=bool)",
+     "valid = ~np.any(np.isnan(samples), axis=1)", ""),
+    # ---- C16
+    ("C16", B, "segment not stored", RIO,
+     '            out.create_dataset("segment",\n                               data=indent["segment"][...],\n                               **dkw)\n', "", "C16-R1"),
+    ("C16", B, "marker test removed", RIO,
+     'if "fit" not in h5gr or "user rate" not in h5gr.attrs:', 'if "fit" not in h5gr:', "C16-R4"),
+    ("C16", B, "default tolerance", RIO, "                               atol=0, equal_nan=True):",
+     "                               equal_nan=True):", "C16-R3"),
+    ("C16", B, "range_x via json on one side", RIO,
+     '                elif key == "range_x":\n                    val = str(val)\n',
+     '                elif key == "range_x":\n                    val = json.dumps(val)\n', "C16-R1"),
+    ("C16", B, "overwrite fit attrs of existing entry", RIO,
+     "            out = ana[idd]\n        else:",
+     "            out = ana[idd]\n            out.attrs[\"data enum\"] = indent.enum\n        else:", "C16-R2"),
+    # ---- C17
+    ("C17", B, "slope not normalised", FEA,
+     "                value = m / np.max(self.datay_apr)\n", "                value = m\n", "C17-R1"),
+    ("C17", B, "whole curve", FEA,
+     '        seg = self.dataset["segment"] == 0\n        y = self.dataset[yaxis][seg].copy()',
+     '        y = self.dataset[yaxis].copy()', "C17-R3"),
+    ("C17", B, "unguarded accessor", FEA,
+     "        if self.has_contact_point:\n            cp = self.contact_point\n            # baseline indices of approach curve\n            # (approaches from pos values)\n            x = self.datax_apr\n            aprsize",
+     "        if self.is_valid:\n            cp = self.contact_point\n            # baseline indices of approach curve\n            # (approaches from pos values)\n            x = self.datax_apr\n            aprsize",
+     "C17-R2"),
+    ("C17", B, "binary returns count", FEA, "                value = npeaks <= 5\n",
+     "                value = npeaks\n", "C17-R5"),
+    ("C17", N, "np.nanmax normaliser", FEA, "            norm = xin.size * np.max(yin)\n",
+     "            norm = np.max(yin) * xin.size\n", ""),
+    # ---- C18
+    ("C18", B, "direct registry write", COR,
+     "    def __str__(self):\n        return f\"NaniteFitModel '{self.model_key}'\"",
+     "    def __str__(self):\n        from .logic import models_available\n        models_available[self.model_key] = self\n"
+     "        return f\"NaniteFitModel '{self.model_key}'\"", "C18-R1"),
+    ("C18", B, "unvalidated module stored", LOG,
+     "    models_available[module.model_key] = md", "    models_available[module.model_key] = module", "C18-R1"),
+    ("C18", B, "path not removed", LOG, "        sys.path.remove(str(path.parent))\n", "", "C18-R3"),
+    ("C18", B, "required attr dropped", COR, '            "valid_axes_y",\n', "", "C18-R2"),
+    ("C18", B, "nan seeds", FIT, "                if not np.isnan(anc_dict[anckey]):  # ignore nans\n                    params[anckey].set(value=anc_dict[anckey])",
+     "                if True:\n                    params[anckey].set(value=anc_dict[anckey])", "C18-R4"),
+    ("C18", N, "items loop", FIT,
+     "        for anckey in anc_dict:\n            if anckey in params:\n                if not np.isnan(anc_dict[anckey]):  # ignore nans\n                    params[anckey].set(value=anc_dict[anckey])",
+     "        for anckey, ancval in anc_dict.items():\n            if anckey in params:\n                if not np.isnan(ancval):  # ignore nans\n                    params[anckey].set(value=ancval)", ""),
+    # ---- C19
+    ("C19", B, "relative accepted", PRO, 'if rt not in ["absolute", "relative cp"]:',
+     'if rt not in ["absolute", "relative cp", "relative"]:', "C19-R1"),
+    ("C19", B, "left guards right", PRO, "    if right:\n        ival[1] = float(right)",
+     "    if left:\n        ival[1] = float(right)", "C19-R2"),
+    ("C19", B, "setitem transforms", PRO, "        data[key] = value\n        self.save(data)",
+     "        data[key] = str(value)\n        self.save(data)", "C19-R4"),
+    ("C19", B, "two rows", CRA, '                ts.write("\\t".join(stats) + "\\n")\n',
+     '                ts.write("\\t".join(stats) + "\\n")\n                ts.write("\\t".join(stats) + "\\n")\n', "C19-R5"),
+    ("C19", B, "rating rounded to 0 digits", CRA, "                 ndigits=1)],", "                 ndigits=0)],", "C19-R5"),
+    # ---- C20
+    ("C20", B, "cached feature", QMA,
+     'name="fit: Young\'s modulus",\n                  unit="Pa",\n                  cache=False)',
+     'name="fit: Young\'s modulus",\n                  unit="Pa",\n                  cache=True)', "C20-R3"),
+    ("C20", B, "wrong unit factor", QMA, 'value = params["contact_point"].value * 1e9',
+     'value = params["contact_point"].value * 1e6', "C20-R3"),
+    ("C20", B, "no hash comparison", QMA,
+     '        if (idnt._rating is None\n                or idnt._rating[0] != idnt.fit_properties.get("hash", "none")):',
+     "        if idnt._rating is None:", "C20-R4"),
+    ("C20", B, "and -> or", GRP, '        if ("spring constant" not in afmdata.metadata\n                and "tip position" not in afmdata):',
+     '        if ("spring constant" not in afmdata.metadata\n                or "tip position" not in afmdata):', "C20-R2"),
+    ("C20", B, "modality kwargs dropped", REA,
+     "            meta_override=meta_override,\n            **get_load_data_modality_kwargs()\n        )\n        data += measurements",
+     "            meta_override=meta_override,\n        )\n        data += measurements", "C20-R1"),
+]
+
+
+def _run_one(args):
+    pid, kind, name, rel, old, new, expect, base_keys = args
+    import importlib
+    from .__main__ import run_property
+    try:
+        base = Repo()
+        src = base.modules_by_rel[rel].src if hasattr(
+            base, "modules_by_rel") else None
+        if src is None:
+            for m in base.modules.values():
+                if m.relpath == rel:
+                    src = m.src
+        if src is None or src.count(old) != 1:
+            return (pid, kind, name, "skipped", "")
+        newsrc = src.replace(old, new)
+        compile(newsrc, rel, "exec")
+        repo = base.with_override(rel, newsrc)
+        mod, ctx = run_property(pid, "quick", repo)
+        fails = [i for i in ctx.failures() if i.key(pid) not in base_keys]
+        if kind == "break":
+            hit = [i for i in fails if i.rule.startswith(expect)]
+            if hit:
+                return (pid, kind, name, "fired", hit[0].rule)
+            other = [i.rule for i in fails]
+            return (pid, kind, name, "MISSED",
+                    f"expected {expect}, got {sorted(set(other))}")
+        if fails:
+            return (pid, kind, name, "FALSE-ALARM",
+                    f"{fails[0].rule}: {fails[0].message[:120]}")
+        return (pid, kind, name, "silent", "")
+    except SyntaxError as e:
+        return (pid, kind, name, "skipped", f"variant does not compile: {e}")
+    except (AnchorError, Undecided) as e:
+        if kind == "break":
+            return (pid, kind, name, "undecided", str(e)[:120])
+        return (pid, kind, name, "FALSE-UNDECIDED", str(e)[:120])
 
 
 def run(pid, repo, seed=0):
-    return {}
+    from .__main__ import run_property
+    mod, ctx = run_property(pid, "quick", repo)
+    base_keys = frozenset(i.key(pid) for i in ctx.failures())
+    todo = [(p, k, n, rel, old, new, exp, base_keys)
+            for (p, k, n, rel, old, new, exp) in V if p == pid]
+    if seed:
+        import random
+        random.Random(seed).shuffle(todo)
+    results = []
+    workers = min(16, max(1, len(todo)))
+    if todo:
+        with cf.ProcessPoolExecutor(max_workers=workers) as ex:
+            results = list(ex.map(_run_one, todo))
+    summ = {"breaks": 0, "breaks_fired": 0, "benign": 0, "benign_silent": 0,
+            "skipped": 0, "undecided_breaks": 0}
+    errors = []
+    rows = []
+    for (p, kind, name, status, info) in results:
+        rows.append({"variant": name, "kind": kind, "status": status,
+                     "info": info})
+        if status == "skipped":
+            summ["skipped"] += 1
+            continue
+        if kind == "break":
+            summ["breaks"] += 1
+            if status == "fired":
+                summ["breaks_fired"] += 1
+            elif status == "undecided":
+                summ["undecided_breaks"] += 1
+                summ["breaks_fired"] += 1   # not silent: exit 2 on that tree
+            else:
+                errors.append(f"break '{name}' not reported ({info})")
+        else:
+            summ["benign"] += 1
+            if status == "silent":
+                summ["benign_silent"] += 1
+            else:
+                errors.append(f"benign '{name}' reported: {status} {info}")
+    return {"variants": summ, "variant_results": rows,
+            "variant_errors": errors}
